@@ -148,9 +148,9 @@ Proof.
   rewrite B5. rewrite opt_read_varuint_app by (apply fld_of_opt; assumption). cbn [bind].
   replace (v_p v ++ v_p1s v ++ v_p2 v ++ v_p2s v ++ v_s v)
     with ((v_p v ++ v_p1s v) ++ (v_p2 v ++ v_p2s v) ++ v_s v ++ []) by (rewrite app_nil_r, <- !app_assoc; reflexivity).
-  rewrite (take_n_app' 96 (v_p v ++ v_p1s v)) by (rewrite app_length; lia). cbn [bind].
+  rewrite (take_n_app' 96 (v_p v ++ v_p1s v)) by (rewrite app_length, Wp, Wp1s; reflexivity). cbn [bind].
   destruct (enc_ref pk_hash (pk_t st) (v_p v ++ v_p1s v)) as [[pref pout] pt1].
-  rewrite (take_n_app' 96 (v_p2 v ++ v_p2s v)) by (rewrite app_length; lia). cbn [bind].
+  rewrite (take_n_app' 96 (v_p2 v ++ v_p2s v)) by (rewrite app_length, Wp2, Wp2s; reflexivity). cbn [bind].
   destruct (enc_ref pk_hash (pk2_t st) (v_p2 v ++ v_p2s v)) as [[p2ref p2out] p2t1].
   rewrite (take_n_app' 64 (v_s v)) by assumption. cbn [bind is_nil negb].
   eexists _, _. reflexivity.
